@@ -13,6 +13,7 @@ import (
 	"strings"
 	"time"
 
+	envoy_cluster "github.com/envoyproxy/go-control-plane/envoy/config/cluster/v3"
 	envoy_core "github.com/envoyproxy/go-control-plane/envoy/config/core/v3"
 	envoy_endpoint "github.com/envoyproxy/go-control-plane/envoy/config/endpoint/v3"
 	"github.com/golang/protobuf/ptypes/wrappers"
@@ -67,13 +68,16 @@ type Update struct {
 	busy    bool
 	cvt     interface {
 		ConvertUpdateEndpoints([]*envoy_endpoint.ClusterLoadAssignment) error
+		ConvertUpdateClusters([]*envoy_cluster.Cluster)
+		ConvertDeleteClusters([]*envoy_cluster.Cluster)
 	}
-	cl      *peers.XClient
-	ups     []*peers.XUpstream
-	reqN    int
-	epochs  []uEpoch // model snapshots at op boundaries, for the traffic oracle
-	lisAddr string
-	connAt  time.Duration
+	cl           *peers.XClient
+	ups          []*peers.XUpstream
+	reqN         int
+	epochs       []uEpoch // model snapshots at op boundaries, for the traffic oracle
+	lisAddr      string
+	connAt       time.Duration
+	xdsDelivered map[string]*envoy_cluster.Cluster // clusters the (simulated) discovery service has delivered and not withdrawn
 }
 
 // uEpoch: a configuration and the interval during which a request may legitimately observe it
@@ -356,7 +360,7 @@ func (w *Update) nextOp() {
 	w.ops++
 	adapter := cluster.GetClusterMngAdapterInstance()
 	rm := router.GetRoutersMangerInstance()
-	kind := pickFrom(ch, "work", "op", []string{"router.full", "route.add", "route.removeall", "cluster.update", "cluster.updatehosts", "cluster.del", "hosts.update", "hosts.append", "hosts.del", "xds.endpoints", "dump", "dump", "listener.update", "listener.add", "listener.del", "invalid"})
+	kind := pickFrom(ch, "work", "op", []string{"router.full", "route.add", "route.removeall", "cluster.update", "cluster.updatehosts", "cluster.del", "hosts.update", "hosts.append", "hosts.del", "xds.endpoints", "dump", "dump", "listener.update", "listener.add", "listener.del", "xds.cluster.update", "xds.cluster.del", "invalid"})
 	var run func()
 	desc := kind
 	m := &w.M
@@ -513,6 +517,66 @@ func (w *Update) nextOp() {
 		desc += " " + name
 		run = func() { _ = server.GetListenerAdapterInstance().DeleteListener("", name) }
 		delete(m.Listeners, name)
+	case "xds.cluster.update", "xds.cluster.del":
+		name := pickFrom(ch, "work", "cname", uClusters)
+		xc := &envoy_cluster.Cluster{Name: name, LbPolicy: envoy_cluster.Cluster_ROUND_ROBIN}
+		static := ch.Bool("work", "xdsstatic")
+		var union []v2.Host
+		if static {
+			xc.ClusterDiscoveryType = &envoy_cluster.Cluster_Type{Type: envoy_cluster.Cluster_STATIC}
+			la := &envoy_endpoint.ClusterLoadAssignment{ClusterName: name}
+			for l, nl := 0, 1+ch.Pick("work", "nlocalities", 2); l < nl; l++ {
+				loc := &envoy_endpoint.LocalityLbEndpoints{Locality: &envoy_core.Locality{Zone: fmt.Sprintf("zone%d", l)}}
+				addr, port := fmt.Sprintf("10.4.%d.1", l), uint32(80)
+				loc.LbEndpoints = append(loc.LbEndpoints, &envoy_endpoint.LbEndpoint{
+					HostIdentifier: &envoy_endpoint.LbEndpoint_Endpoint{Endpoint: &envoy_endpoint.Endpoint{Address: &envoy_core.Address{Address: &envoy_core.Address_SocketAddress{
+						SocketAddress: &envoy_core.SocketAddress{Address: addr, PortSpecifier: &envoy_core.SocketAddress_PortValue{PortValue: port}}}}}},
+					LoadBalancingWeight: &wrappers.UInt32Value{Value: 1},
+				})
+				union = append(union, v2.Host{HostConfig: v2.HostConfig{Address: fmt.Sprintf("%s:%d", addr, port), Weight: 1}})
+				la.Endpoints = append(la.Endpoints, loc)
+			}
+			xc.LoadAssignment = la
+		} else {
+			xc.ClusterDiscoveryType = &envoy_cluster.Cluster_Type{Type: envoy_cluster.Cluster_EDS}
+		}
+		if kind == "xds.cluster.del" {
+			// the discovery service withdraws a cluster it delivered before (the object of its last update)
+			prev := w.xdsDelivered[name]
+			if prev == nil {
+				desc += " " + name + " (never delivered by xDS: nothing to withdraw)"
+				run = func() {}
+				break
+			}
+			xc = prev
+			static = prev.GetType() == envoy_cluster.Cluster_STATIC
+			if static {
+				s.Faults["w:xds_static_cluster_withdrawn"]++
+			}
+			delete(w.xdsDelivered, name)
+		}
+		desc += fmt.Sprintf(" %s static=%v", name, static)
+		if kind == "xds.cluster.update" {
+			if w.xdsDelivered == nil {
+				w.xdsDelivered = map[string]*envoy_cluster.Cluster{}
+			}
+			w.xdsDelivered[name] = xc
+			run = func() { w.cvt.ConvertUpdateClusters([]*envoy_cluster.Cluster{xc}) }
+			switch {
+			case static: // a cluster with its own endpoints replaces the hosts
+				m.Clusters[name] = &mCluster{LB: "LB_ROUNDROBIN", Hosts: toM(union)}
+			case m.Clusters[name] != nil: // an EDS cluster keeps the hosts the endpoint service gave it
+				m.Clusters[name].LB = "LB_ROUNDROBIN"
+			default:
+				m.Clusters[name] = &mCluster{LB: "LB_ROUNDROBIN"}
+			}
+		} else {
+			run = func() { w.cvt.ConvertDeleteClusters([]*envoy_cluster.Cluster{xc}) }
+			if m.Clusters[name] != nil {
+				w.Stats["xds_cluster_del_static"] += map[bool]int{true: 1}[static]
+			}
+			delete(m.Clusters, name) // the cluster discovery service no longer lists it
+		}
 	case "dump":
 		run = func() { w.dumpAll() }
 	default: // invalid / no-op operations: nothing may change
@@ -533,6 +597,8 @@ func (w *Update) nextOp() {
 		w.epochs[len(w.epochs)-1].until = s.Now()
 		w.epochs = append(w.epochs, uEpoch{opStart, 1 << 62, w.cloneModel()})
 		w.checkAfterOp(desc)
+		// (a reported divergence makes the model follow the system: later traffic is judged against what is live)
+		w.epochs[len(w.epochs)-1].m = w.cloneModel()
 		s.After(time.Duration(1+ch.Pick("work", "opgap", 80))*time.Millisecond, "op", w.nextOp)
 	})
 }
@@ -673,6 +739,7 @@ func (w *Update) checkAfterOp(desc string) {
 		switch {
 		case mc == nil && ok:
 			s.Violate("C12", "removed_cluster_still_live", "cluster %s was removed but is still served with hosts %v; %s", name, live, hist)
+			w.M.Clusters[name] = &mCluster{Hosts: live} // report once, then follow the system
 		case mc != nil && !ok:
 			s.Violate("C12", "cluster_missing", "cluster %s should exist; %s", name, hist)
 		case mc != nil && !sameHosts(mc.Hosts, live):
